@@ -369,9 +369,11 @@ def _byte_offset_ok(fn, init_len, uninit_len):
         return sh(x, 60)
     for bi, bb in enumerate(fn.blocks):
         if bb["t"]["k"] == "ret":
+            plain = not fn.locals[0]["t"].startswith(("std::result::Result<", "core::result::Result<"))
             for l in leaves(pv.local(0, bi, len(bb["s"]))):
-                if l[0] == "agg" and l[2] == "Ok":
-                    t = strip(dict(l[3])["0"])
+                if plain or (l[0] == "agg" and l[2] == "Ok"):
+                    # (a byte_offset that cannot fail may as well return the number itself)
+                    t = strip(l) if plain else strip(dict(l[3])["0"])
                     got = P.poly(t, atom)
                     want = {("i",): uninit_len, ("popcount",): init_len - uninit_len}
                     return got == want, "%s  [= %s]" % (sh(t, 160), P.show_poly(got))
